@@ -3,7 +3,7 @@ import vlib
 
 KNOWN = {
     "diamond-lost-import", "respelled-path-lost-import", "root-reimported-duplicate",
-    "dup-target-panic", "skipped-line-error-unreported", "dup-fragment-masks-missing",
+    "skipped-line-error-unreported",
 }
 
 
@@ -47,7 +47,7 @@ def run(ctx):
         assumptions=[
             "C13_imports_exact: guard exact_guard_b (closed key set, distinguishable definitions, all lines pointing at one "
             "file ask for the same fragments, no line asks for one of the root's own definitions)",
-            "C13_error_complete / C13_no_panic: additionally fragment names unique per file and target names unique per merged line",
-            "C13_imports_terminate, C13_error_sound: no guard",
+            "C13_error_iff: guard error_guard_b / agree_b at reach_b (all lines pointing at one file are satisfiable or all not)",
+            "C13_imports_terminate, C13_error_sound, C13_imports_sound, C13_linear_work, C13_select_exact, C13_one_line_honoured: no guard",
         ],
     )
